@@ -56,8 +56,16 @@ def cmdtail(cmds, optional=False, else_pos=()):
     return {"kind": "cmd", "optional": optional, "cmds": list(cmds), "else_pos": list(else_pos)}
 
 
-def level(named, tail=NOTAIL, version=False, vtag="0", ftu=False):
-    return {"named": list(named), "tail": tail, "version": version, "vtag": vtag, "ftu": ftu}
+def level(named, tail=NOTAIL, version=False, vtag="0", ftu=False, alt_help=False, alt_ver=False):
+    """alt_help / alt_ver: the level replaces the names of its help / version flag (help_parser / version_parser)"""
+    lv = {"named": list(named), "tail": tail, "version": version, "vtag": vtag, "ftu": ftu,
+          "help_names": ["--aide"] if alt_help else ["-h", "--help"],
+          "ver_names": ["--vers"] if alt_ver else ["-V", "--version"]}
+    if alt_help:
+        lv["help_flag"] = {"shorts": [], "longs": ["--aide"], "help": "HELP-aide"}
+    if alt_ver:
+        lv["version_flag"] = {"shorts": [], "longs": ["--vers"], "help": "HELP-vers"}
+    return lv
 
 
 def alpha(words=("1", "x"), spells=("sep", "eq"), extras=("dd", "help", "unk"), maxlen=3,
@@ -251,7 +259,9 @@ def cmd_tree(rnd, depth, letters, prefix="L", max_named=2, max_cmds=2, cmd_names
     named = _uniq_named(rnd, prefix + "n", letters, rnd.randint(0, max_named))
     if depth == 0:
         tails = [NOTAIL, postail(pos(prefix + "p", "opt")), postail(pos(prefix + "p", "many")),
-                 postail(pos(prefix + "p", "one"), pos(prefix + "q", "opt", vt="int"))]
+                 postail(pos(prefix + "p", "one"), pos(prefix + "q", "opt", vt="int")),
+                 postail(pos(prefix + "p", "opt", "non_strict"), pos(prefix + "q", "many", "strict")),
+                 postail(pos(prefix + "p", "many", "strict"))]
         return level(named, rnd.choice(tails), version=rnd.random() < 0.3, vtag=prefix, ftu=rnd.random() < 0.25)
     cmds = []
     for c in range(rnd.randint(1, max_cmds)):
@@ -720,3 +730,16 @@ def cmd_or_pos_family(seed, n, maxlen=3, budget=5000):
         trim_to_budget(d, budget)
         out.append(d)
     return out
+
+
+
+def replace_help_names(d, rnd, p=0.3):
+    """some levels configure their own names for the help / version flags (help_parser / version_parser)"""
+    for lvl in all_levels(d):
+        if rnd.random() < p:
+            lvl["help_names"] = ["--aide"]
+            lvl["help_flag"] = {"shorts": [], "longs": ["--aide"], "help": "HELP-aide"}
+        if lvl["version"] and rnd.random() < p:
+            lvl["ver_names"] = ["--vers"]
+            lvl["version_flag"] = {"shorts": [], "longs": ["--vers"], "help": "HELP-vers"}
+    return d
